@@ -35,13 +35,13 @@
                        (success := status == 0; persistent_sema.set())
 
      environment
-       Transmit        the device executes the request when it arrives and answers at once into `chan`
-       Drop / Dup      the link loses / duplicates the oldest reply under way
+       Transmit        the device executes the request when it arrives; its answer is in the air (`chan`)
+       Drop / Dup      the link loses / duplicates the oldest reply in the air
        LinkDrop        link error or close_link: link closed, cf.link = None, replies in the air are gone
                        (what is already in the in_queue may still be dispatched)
        UpdClose        Param._disconnected: updater.close() (FIFO emptied, wait_lock force-released),
-                       toc = Toc()      [WaitMode = "wake": + the proposed helper patch, a disconnected
-                       callback that clears success and sets persistent_sema]
+                       toc = Toc()      [WaitMode = "wake": + the proposed helper patch: the waiter notices
+                       that the connection is gone, success := False, the wait ends]
 
    Every action emits exactly one observable event `obs` (same record shape as the events the
    harness records from the real code); `mon`/`bad` are ParamFileProps' monitor state and first
